@@ -44,6 +44,12 @@ def run_cmd(ctx, keep, tag="bat"):
 
 def judge(ctx, c, v, b, r, tag=""):
     """report a completed CmdExe run that differs from the reference; returns True if the run was compared"""
+    # the model gives up after 60000 steps: when the reference needs less than a hundredth of that, the Batch script does not terminate
+    if r["st"] == "diverge" and v.get("steps", 10 ** 9) * 100 < 60000:
+        s = "under cmd.exe's rules the Batch script does not end within 60000 steps (the reference semantics ends after %d steps): stdout so far %r" % (v["steps"], r["out"][:200])
+        ctx.report_failure(c["id"] + tag, {"property": ctx.prop, "case": c["id"], "why": s, "source": c["src"], "batch_script": b.get("bat"),
+                                           "expected": {"stdout": v["out"], "status": v["code"]}, "reproduce": "tsh -t batch; run the .bat under cmd.exe (or spec/CmdExe.tla)"}, s)
+        return True
     if r["st"] in ("unsupported", "diverge"):
         ctx.dropped["cmd-" + r["st"]] = ctx.dropped.get("cmd-" + r["st"], 0) + 1
         if r["st"] == "unsupported" and len(ctx.notes.setdefault("unsupported_lines", [])) < 10:
